@@ -113,6 +113,8 @@ Definition check (c : case) : list nat :=
            else [])
       end
   | CE2E sent recv =>
+      (* both lists are sorted by the harness: exactly-once delivery = equal lists *)
+      if pair_list_eqb sent recv then [] else
       clause 1 (forallb (fun p => existsb (pair_eqb p) recv) sent) ++
       clause 2 (forallb (fun p => length (filter (pair_eqb p) recv) <=? 1) recv) ++
       clause 3 (forallb (fun p => existsb (pair_eqb p) sent) recv)
